@@ -74,6 +74,16 @@ pub struct Ctl {
     pub probes: Arc<Mutex<HashMap<String, u64>>>,
     /// global event sequence number: every consumed event and every controller action gets one
     pub seq: u64,
+    /// waits at least this long are hang verdicts (see `wait_for`)
+    pub hang_bound: Duration,
+    /// how often a hang verdict was postponed because the processes under test were busy
+    pub hang_extensions: u64,
+}
+
+const HANG_EXTENSIONS: u32 = 5;
+fn ticks_per_sec() -> u64 {
+    let t = unsafe { libc::sysconf(libc::_SC_CLK_TCK) };
+    if t > 0 { t as u64 } else { 100 }
 }
 
 fn reader_thread(
@@ -204,6 +214,8 @@ impl Ctl {
             probes,
             seq: 0,
             clock,
+            hang_bound: Duration::from_millis(std::env::var("VERIF_HANG_MS").ok().and_then(|s| s.parse().ok()).unwrap_or(10_000)),
+            hang_extensions: 0,
         })
     }
 
@@ -310,13 +322,18 @@ impl Ctl {
             self.seq = st;
             return Some(ev);
         }
-        let deadline = Instant::now() + timeout;
+        // A wait as long as the hang bound is a hang verdict when it expires. "Nothing for that long"
+        // only means "stuck" if the processes under test were idle meanwhile: one that is still
+        // burning CPU (compressing megabytes on a loaded machine) is slow, not stuck, and gets up to
+        // HANG_EXTENSIONS further periods. A busy-looping process exhausts them and is reported.
+        let extendable = timeout >= self.hang_bound;
+        let mut extensions = 0;
+        let mut cpu0 = if extendable { self.cpu_ticks() } else { 0 };
+        let mut deadline = Instant::now() + timeout;
         loop {
             let now = Instant::now();
-            if now >= deadline {
-                return None;
-            }
-            match self.rx.recv_timeout(deadline - now) {
+            let left = deadline.saturating_duration_since(now);
+            match if left.is_zero() { Err(RecvTimeoutError::Timeout) } else { self.rx.recv_timeout(left) } {
                 Ok((st, ev)) => {
                     self.note(&ev);
                     if pred(&ev) {
@@ -325,10 +342,47 @@ impl Ctl {
                     }
                     self.buf.push_back((st, ev));
                 }
-                Err(RecvTimeoutError::Timeout) => return None,
+                Err(RecvTimeoutError::Timeout) => {
+                    if !extendable || extensions >= HANG_EXTENSIONS {
+                        return None;
+                    }
+                    let cpu1 = self.cpu_ticks();
+                    // busy = at least 3% of one CPU over the period (an idle, parked process uses none)
+                    let need = (timeout.as_millis() as u64 * ticks_per_sec() / 1000) * 3 / 100;
+                    if cpu1.saturating_sub(cpu0) < need.max(3) {
+                        return None;
+                    }
+                    extensions += 1;
+                    self.hang_extensions += 1;
+                    *self.probes.lock().unwrap().entry("harness.hang_verdict_postponed_while_busy".to_string()).or_insert(0) += 1;
+                    cpu0 = cpu1;
+                    deadline = Instant::now() + timeout;
+                }
                 Err(RecvTimeoutError::Disconnected) => return None,
             }
         }
+    }
+
+    /// CPU time (user+system, own and reaped children, in clock ticks) of the processes we started
+    /// that are still alive.
+    fn cpu_ticks(&self) -> u64 {
+        let mut sum = 0u64;
+        for p in &self.procs {
+            if p.exited {
+                continue;
+            }
+            if let Ok(s) = std::fs::read_to_string(format!("/proc/{}/stat", p.pid)) {
+                // fields after the parenthesised command name: state is field 3
+                if let Some(i) = s.rfind(')') {
+                    let f: Vec<&str> = s[i + 1..].split_whitespace().collect();
+                    // utime stime cutime cstime = fields 14..17 -> indices 11..14 here
+                    for k in 11..15 {
+                        sum += f.get(k).and_then(|x| x.parse::<u64>().ok()).unwrap_or(0);
+                    }
+                }
+            }
+        }
+        sum
     }
 
     /// Non-blocking: is there a buffered/arrived event matching `pred`? (does not consume)
